@@ -28,6 +28,7 @@ DEFAULTS = dict(
     p_shuffle=1.0, p_short=0.3, p_colnames=0.1,
     min_list_len=0,      # C05: 1 keeps empty list literals (type not ground) away
     p_head_perm=0.0,     # named head arguments listed in a drawn order (per rule / fact)
+    p_if_composite=0.0,  # if-then-else whose branches are lists / records
 )
 
 
@@ -134,6 +135,12 @@ class Gen(object):
                 return fc
         r = rng.random()
         if depth <= 0 or r < 0.35 or t in ('LN', 'LS', 'R'):
+            if t in ('LN', 'LS', 'R') and depth > 0 and self.o['p_if_composite'] and \
+                    self.chance(self.o['p_if_composite']):
+                self.labels.add('if_composite')
+                return ('if', self.boolexpr(env, depth - 1),
+                        self.expr(t, env, depth - 1, allow_fcall),
+                        self.expr(t, env, depth - 1, allow_fcall))
             if cands and rng.random() < 0.7:
                 return ('var', rng.choice(cands))
             if t in ('LN', 'LS') and depth > 0 and rng.random() < 0.6:
